@@ -479,32 +479,46 @@ Proof.
     apply in_map_iff. exists (k, v). auto.
 Qed.
 
+(* any scalar: it is enough that the sense function respects the equality test
+   (at binary64: PrimFloat.eqb true means the same real or +-0, Flocq) *)
+Theorem dedup_den_gen {T} (S : Scalar T) (sense : desc T -> bool) surfs volus new ren volus' :
+  (forall a b, desc_eqb S a b = true -> sense a = sense b) ->
+  NoDup (map fst surfs) ->
+  remove_duplicate_surfaces S surfs = (new, ren) ->
+  renumber_surfaces volus ren = Ok volus' ->
+  forall fuel k, vden fuel (sense_of sense new) volus' k = vden fuel (sense_of sense surfs) volus k.
+Proof.
+  intros Hresp Hn Hr Hv. apply (renumber_den _ _ ren); [|exact Hv].
+  intros s s' Hl. apply lookup_In in Hl.
+  assert (Hin : In (s, s') (snd (remove_duplicate_surfaces S surfs))) by (rewrite Hr; exact Hl).
+  destruct (dedup_merges_tested S surfs s s' Hin) as [d [d' [H1 [H2 [H3 H4]]]]]. rewrite Hr in H3. cbn [fst] in H3.
+  unfold sense_of. rewrite (In_lookup _ _ _ Hn H1).
+  assert (Hnn : NoDup (map fst new)).
+  { pose proof (rds_run S surfs) as E. rewrite Hr in E.
+    replace new with (fst (dedup_run S (sort_items surfs) [])) by (rewrite <- E; reflexivity).
+    apply run_new_nodup. apply (Permutation_NoDup (Permutation_map fst (sort_items_perm surfs))). exact Hn. }
+  rewrite (In_lookup _ _ _ Hnn H3). destruct H4 as [He|[_ ->]]; [apply Hresp; exact He|reflexivity].
+Qed.
+
 Theorem dedup_den (sense : desc R -> bool) surfs volus new ren volus' :
   NoDup (map fst surfs) ->
   remove_duplicate_surfaces RS surfs = (new, ren) ->
   renumber_surfaces volus ren = Ok volus' ->
   forall fuel k, vden fuel (sense_of sense new) volus' k = vden fuel (sense_of sense surfs) volus k.
 Proof.
-  intros Hn Hr Hv. apply (renumber_den _ _ ren); [|exact Hv].
-  intros s s' Hl. apply lookup_In in Hl.
-  assert (Hin : In (s, s') (snd (remove_duplicate_surfaces RS surfs))) by (rewrite Hr; exact Hl).
-  destruct (dedup_merges_equal surfs s s' Hin) as [d [H1 [H2 H3]]]. rewrite Hr in H3. cbn [fst] in H3.
-  unfold sense_of. rewrite (In_lookup _ _ _ Hn H1).
-  assert (Hnn : NoDup (map fst new)).
-  { pose proof (rds_run RS surfs) as E. rewrite Hr in E.
-    replace new with (fst (dedup_run RS (sort_items surfs) [])) by (rewrite <- E; reflexivity).
-    apply run_new_nodup. apply (Permutation_NoDup (Permutation_map fst (sort_items_perm surfs))). exact Hn. }
-  rewrite (In_lookup _ _ _ Hnn H3). reflexivity.
+  apply dedup_den_gen. intros a b H. apply desc_eqb_RS in H. subst. reflexivity.
 Qed.
 
-(* ---------- refutation: the union helper planes take part in de-duplication ---------- *)
+(* ---------- the union helper planes take part in de-duplication ---------- *)
 (* surfaces 1 = PX 1 (user), 2, 3 = PY 0 (duplicates), 5, 6 = the helper planes
    PLANEX 1 / PLANEX -1; the volume table is the one construct_volume_t4 returns
    for the cell (2 -3) : -1 (the harness compares it with the captured one):
-   4 = EQUA PLUS 2 MINUS 3, 6 = EQUA MINUS 1, 5 = 1 = EQUA PLUS 2 MINUS 3 UNION 6.  With
-   de-duplication 3 -> 2 makes volume 1 patently empty, remove_empty_volumes
-   writes the helper numbers 5 / 6 into it, but 5 was merged into 1: KeyError in
-   the writer.  Without de-duplication the same tables are written. *)
+   4 = EQUA PLUS 2 MINUS 3, 6 = EQUA MINUS 1, 5 = 1 = EQUA PLUS 2 MINUS 3 UNION 6.
+   De-duplication merges helper 5 into the user plane 1 and 3 into 2; volume 1
+   becomes patently empty and gets the helper equation, written with the
+   RENUMBERED helper (PLUS 1 MINUS 6): both option settings write a file.
+   (Before the fix "renumber the union helper planes together with the other
+   surfaces" the stale number 5 was used and the writer raised KeyError.) *)
 Definition helper_surfs : list (Z * desc Z) :=
   [(1, mkDesc 0%N [1] None); (2, mkDesc 1%N [0] None); (3, mkDesc 1%N [0] None);
    (5, mkDesc 0%N [1] None); (6, mkDesc 0%N [-1] None)].
@@ -512,8 +526,11 @@ Definition helper_volus : list (Z * volu) :=
   [(4, mkVolu [2] [3] None true); (6, mkVolu [] [1] None true);
    (5, mkVolu [2] [3] (Some (OUnion, [6])) true); (1, mkVolu [2] [3] (Some (OUnion, [6])) false)].
 
-Theorem dedup_helper_merge_refuted :
-  finish ZS false helper_surfs helper_volus 5 6 = Err EKey /\
+Lemma helper_merge_example :
+  finish ZS false helper_surfs helper_volus 5 6 =
+    Ok ([(1, mkDesc 0%N [1] None); (2, mkDesc 1%N [0] None); (6, mkDesc 0%N [-1] None)],
+        [(6, mkVolu [] [1] None true); (1, mkVolu [1] [6] (Some (OUnion, [6])) false)],
+        [1; 6]) /\
   exists out, finish ZS true helper_surfs helper_volus 5 6 = Ok out.
 Proof. split; [vm_compute; reflexivity|eexists; vm_compute; reflexivity]. Qed.
 
@@ -531,3 +548,171 @@ Theorem dedup_all_empty_refuted :
   finish ZS false empty_surfs empty_volus 4 5 = Err EValue /\
   exists out, finish ZS true empty_surfs empty_volus 4 5 = Ok out.
 Proof. split; [vm_compute; reflexivity|eexists; vm_compute; reflexivity]. Qed.
+
+(* ---------- the guarded statement: when the helper planes survive
+   de-duplication, the writer finds every surface it looks up ---------- *)
+Definition ids_in (K : Z -> Prop) (dic : list (Z * volu)) : Prop :=
+  forall k v, In (k, v) dic -> forall s, In s (pluses v ++ minuses v) -> K s.
+
+Lemma zset_add_in x l s : In s (zset_add x l) -> s = x \/ In s l.
+Proof.
+  induction l as [|y r IH]; cbn [zset_add]; [intros [<-|[]]; auto|].
+  destruct (Z.ltb x y); [intros [<-|H]; auto|]. destruct (Z.eqb x y); [auto|].
+  intros [<-|H]; [right; left; reflexivity|]. destruct (IH H); [auto|right; right; auto].
+Qed.
+
+Lemma zset_of_list_in l s : In s (zset_of_list l) -> In s l.
+Proof.
+  induction l as [|x r IH]; cbn [zset_of_list fold_right]; [auto|]. fold (zset_of_list r).
+  intros H. destruct (zset_add_in _ _ _ H) as [->|H']; [left; reflexivity|right; auto].
+Qed.
+
+Lemma renumber_ids_values ren l l' : renumber_ids ren l = Ok l' ->
+  forall s', In s' l' -> exists s, lookup s ren = Some s'.
+Proof.
+  intros H. apply renumber_ids_ok in H. induction H as [|s t r r' Hst _ IH]; intros s' [].
+  - subst. eauto.
+  - auto.
+Qed.
+
+Lemma renumber_all_ids ren volus : forall volus', renumber_all volus ren = Ok volus' ->
+  ids_in (fun s' => exists s, lookup s ren = Some s') volus'.
+Proof.
+  induction volus as [|[k0 v0] r IH]; intros volus' H; cbn [renumber_all] in H.
+  - injection H as <-. intros k v [].
+  - destruct (renumber_volu ren v0) as [v0'|e] eqn:Ev; [|discriminate].
+    destruct (renumber_all r ren) as [r'|e] eqn:Er; [|discriminate]. injection H as <-.
+    intros k v [Heq|Hin] s Hs; [|exact (IH _ eq_refl k v Hin s Hs)].
+    injection Heq as <- <-. unfold renumber_volu in Ev.
+    destruct (renumber_ids ren (pluses v0)) as [p|e] eqn:Ep; [|discriminate].
+    destruct (renumber_ids ren (minuses v0)) as [m|e] eqn:Em; [|discriminate].
+    injection Ev as <-. cbn [pluses minuses] in Hs. apply in_app_or in Hs.
+    destruct Hs as [Hs|Hs]; apply zset_of_list_in in Hs;
+      [exact (renumber_ids_values _ _ _ Ep _ Hs)|exact (renumber_ids_values _ _ _ Em _ Hs)].
+Qed.
+
+Lemma update_in {V} k (v : V) d e : In e (update k v d) -> e = (k, v) \/ In e d.
+Proof.
+  induction d as [|[k' v'] r IH]; cbn [update]; [intros [<-|[]]; auto|].
+  destruct (Z.eqb k' k); intros [<-|H]; auto.
+  - right; right; exact H.
+  - right; left; reflexivity.
+  - destruct (IH H); [auto|right; right; auto].
+Qed.
+
+Lemma remove_key_in {V} k (d : list (Z * V)) e : In e (remove_key k d) -> In e d.
+Proof.
+  induction d as [|[k' v'] r IH]; cbn [remove_key]; [auto|].
+  destruct (Z.eqb k' k); [intros H; right; exact H|intros [<-|H]; [left; reflexivity|right; auto]].
+Qed.
+
+Section Guard.
+Variable K : Z -> Prop.
+Variables u0 u1 : Z.
+Hypothesis Hu0 : K u0.
+Hypothesis Hu1 : K u1.
+
+Lemma remove_step_ids : forall to_remove dic gone dic' gone',
+  remove_step u0 u1 to_remove dic gone = Ok (dic', gone') -> ids_in K dic -> ids_in K dic'.
+Proof.
+  induction to_remove as [|k r IH]; intros dic gone dic' gone' H Hi; cbn [remove_step] in H.
+  - injection H as <- _. exact Hi.
+  - destruct (lookup k dic) as [v|]; [|discriminate].
+    assert (Hdel : ids_in K (remove_key k dic)).
+    { intros k' v' Hin. apply (Hi k' v'). apply (remove_key_in _ _ _ Hin). }
+    destruct (ops v) as [[[|] args]|].
+    + apply (IH _ _ _ _ H). intros k' v' Hin s Hs. destruct (update_in _ _ _ _ Hin) as [Heq|Hin'].
+      * injection Heq as E1 E2. subst k' v'. cbn [pluses minuses app] in Hs. destruct Hs as [<-|[<-|[]]]; assumption.
+      * exact (Hi _ _ Hin' s Hs).
+    + exact (IH _ _ _ _ H Hdel).
+    + exact (IH _ _ _ _ H Hdel).
+Qed.
+
+Lemma prune_ops_ids removed : forall dic, ids_in K dic -> ids_in K (fst (prune_ops removed dic)).
+Proof.
+  induction dic as [|[k v] r IH]; intros Hi; cbn [prune_ops]; [intros ? ? []|].
+  assert (Hr : ids_in K r) by (intros k' v' Hin; apply (Hi k' v'); right; exact Hin).
+  specialize (IH Hr). destruct (prune_ops removed r) as [r' tr]. cbn [fst] in *.
+  assert (Hv : forall s, In s (pluses v ++ minuses v) -> K s) by (apply (Hi k v); left; reflexivity).
+  destruct (ops v) as [[[|] args]|].
+  - cbn [fst]. intros k' v' [Heq|Hin] s Hs; [injection Heq as <- <-; cbn [pluses minuses] in Hs; auto|exact (IH _ _ Hin s Hs)].
+  - destruct (existsb _ args); cbn [fst]; intros k' v' [Heq|Hin] s Hs;
+      try (injection Heq as <- <-; auto); exact (IH _ _ Hin s Hs).
+  - cbn [fst]. intros k' v' [Heq|Hin] s Hs; [injection Heq as <- <-; auto|exact (IH _ _ Hin s Hs)].
+Qed.
+
+Lemma remove_loop_ids : forall fuel dic removed to_remove dic',
+  remove_loop fuel u0 u1 dic removed to_remove = Ok dic' -> ids_in K dic -> ids_in K dic'.
+Proof.
+  induction fuel as [|f IH]; intros dic removed to_remove dic' H Hi; cbn [remove_loop] in H.
+  - destruct to_remove; [injection H as <-; exact Hi|discriminate].
+  - destruct to_remove as [|t tr]; [injection H as <-; exact Hi|].
+    destruct (remove_step u0 u1 (t :: tr) dic []) as [[dic1 gone]|e] eqn:Es; [|discriminate].
+    pose proof (prune_ops_ids (removed ++ gone) dic1 (remove_step_ids _ _ _ _ _ Es Hi)) as Hp.
+    destruct (prune_ops (removed ++ gone) dic1) as [dic2 tr2]. cbn [fst] in Hp.
+    exact (IH _ _ _ _ H Hp).
+Qed.
+End Guard.
+
+Lemma used_surfaces_in dic s : In s (used_surfaces dic) ->
+  exists k v, In (k, v) dic /\ In s (pluses v ++ minuses v).
+Proof.
+  unfold used_surfaces. intros H. apply zset_of_list_in in H. apply in_flat_map in H.
+  destruct H as [[k v] [Hin Hs]]. exists k, v. split; [exact Hin|exact Hs].
+Qed.
+
+(* the renumbered helper planes are kept surfaces *)
+Theorem dedup_helpers_survive {T} (S : Scalar T) surfs volus u0 u1 s' v' a b :
+  dedup_stage S false surfs volus u0 u1 = Ok (s', v', (a, b)) ->
+  lookup a s' <> None /\ lookup b s' <> None /\
+  In (u0, a) (snd (remove_duplicate_surfaces S surfs)) /\
+  In (u1, b) (snd (remove_duplicate_surfaces S surfs)).
+Proof.
+  intros Hd. unfold dedup_stage in Hd.
+  destruct (remove_duplicate_surfaces S surfs) as [new ren] eqn:Er.
+  destruct (renumber_surfaces volus ren) as [vv|e]; [|discriminate].
+  destruct (lookup u0 ren) as [a0|] eqn:E0; [|discriminate].
+  destruct (lookup u1 ren) as [b0|] eqn:E1; [|discriminate].
+  injection Hd as <- <- <- <-. apply lookup_In in E0, E1. cbn [snd].
+  assert (Hk : forall u x, In (u, x) ren -> lookup x new <> None).
+  { intros u x Hin.
+    assert (Hin2 : In (u, x) (snd (remove_duplicate_surfaces S surfs))) by (rewrite Er; exact Hin).
+    destruct (dedup_merges_tested S surfs u x Hin2) as [d [d' [_ [_ [H3 _]]]]]. rewrite Er in H3.
+    apply lookup_keys. apply in_map_iff. exists (x, d'). split; [reflexivity|exact H3]. }
+  split; [exact (Hk _ _ E0)|]. split; [exact (Hk _ _ E1)|]. split; assumption.
+Qed.
+
+(* the writer finds every surface it looks up - for every table, every scalar
+   (no guard: the helper planes are renumbered with the other surfaces) *)
+Theorem dedup_writer_finds_surfaces {T} (S : Scalar T) surfs volus s' v' u0 u1 a b v'' :
+  dedup_stage S false surfs volus u0 u1 = Ok (s', v', (a, b)) ->
+  remove_empty_volumes v' a b = Ok v'' ->
+  written_surfaces s' (remove_unused_volumes v'') <> Err EKey.
+Proof.
+  intros Hd He. destruct (dedup_helpers_survive S _ _ _ _ _ _ _ _ Hd) as [Hg0 [Hg1 _]].
+  unfold dedup_stage in Hd.
+  destruct (remove_duplicate_surfaces S surfs) as [new ren] eqn:Er.
+  destruct (renumber_surfaces volus ren) as [vv|e] eqn:Ev; [|discriminate].
+  destruct (lookup u0 ren) as [a0|]; [|discriminate].
+  destruct (lookup u1 ren) as [b0|]; [|discriminate].
+  injection Hd as <- <- <- <-.
+  assert (Ha : renumber_all volus ren = Ok vv).
+  { unfold renumber_surfaces in Ev. destruct volus; [discriminate|exact Ev]. }
+  set (K := fun s => lookup s new <> None).
+  assert (Hi : ids_in K vv).
+  { intros k v Hin s Hs. destruct (renumber_all_ids _ _ _ Ha k v Hin s Hs) as [s0 Hl].
+    apply lookup_In in Hl.
+    assert (Hin2 : In (s0, s) (snd (remove_duplicate_surfaces S surfs))) by (rewrite Er; exact Hl).
+    destruct (dedup_merges_tested S surfs s0 s Hin2) as [d [d' [_ [_ [H3 _]]]]]. rewrite Er in H3.
+    unfold K. apply lookup_keys. apply in_map_iff. exists (s, d'). split; [reflexivity|exact H3]. }
+  unfold remove_empty_volumes in He.
+  pose proof (remove_loop_ids K a0 b0 Hg0 Hg1 _ _ _ _ _ He Hi) as Hi2.
+  unfold written_surfaces. destruct (used_surfaces (remove_unused_volumes v'')) as [|x l] eqn:Eu; [discriminate|].
+  rewrite <- Eu.
+  assert (Hall : forallb (fun s => match lookup s new with Some _ => true | None => false end)
+                   (used_surfaces (remove_unused_volumes v'')) = true).
+  { apply forallb_forall. intros s Hs. destruct (used_surfaces_in _ _ Hs) as [k [v [Hin Hsv]]].
+    unfold remove_unused_volumes in Hin. apply filter_In in Hin. destruct Hin as [Hin _].
+    pose proof (Hi2 k v Hin s Hsv) as Hk. unfold K in Hk. destruct (lookup s new); [reflexivity|congruence]. }
+  rewrite Hall. discriminate.
+Qed.
